@@ -173,8 +173,14 @@ def lookup_reviewed(table, key, guards=None):
     key is absent, an entry whose key differs only in closure ordinals and whose recorded guard signature equals the
     current one is taken (adding an unrelated closure to a function renumbers the others)."""
     rv = table.get(key)
-    if rv is not None or "{closure#" not in key:
+    if "{closure#" not in key:
         return rv
+    if rv is not None:
+        # the closures of a function are numbered in source order: when one of them becomes a named function the
+        # others move up, and closure#0 is no longer the closure the entry was written for
+        from .inventory import guards_hold as _gh
+        if guards is None or _gh(rv.get("guards", []), guards):
+            return rv
     idx = table.get("__norm__")
     if idx is None:
         idx = {}
@@ -182,7 +188,8 @@ def lookup_reviewed(table, key, guards=None):
             if isinstance(v, dict) and "{closure#" in k:
                 idx.setdefault(_CLOS.sub("{closure}", k), []).append(v)
         table["__norm__"] = idx
-    cands = idx.get(_CLOS.sub("{closure}", key), [])
+    cands = [c for c in idx.get(_CLOS.sub("{closure}", key), []) if c is not rv]
     if guards is not None:
-        cands = [c for c in cands if set(c.get("guards", [])) <= set(guards)]
-    return cands[0] if cands else None
+        from .inventory import guards_hold
+        cands = [c for c in cands if guards_hold(c.get("guards", []), guards)]
+    return cands[0] if cands else rv
